@@ -168,6 +168,10 @@ class Runner:
         self.conn_of = {}         # model cid -> impl cid
         self.tpos = 0
         self.problems = []        # gateway well-formedness problems seen (C15)
+        self.req_info = {}        # model rid -> (op kind, session ref or None)
+        self.conn_sess = {}       # model cid -> session index
+        self.pre, self.post = [], []     # flag snapshots around every stimulus
+        self.impl_rid = {}        # model rid -> driver rid
 
     # --- bookkeeping
     def _sid_index(self, sid):
@@ -237,7 +241,7 @@ class Runner:
             return 'wsdone'
         if st == 'ws-rejected':
             return 400
-        if (rec.get('wsgi_problems') or rec.get('asgi_problems')) and st is None:
+        if ((rec.get('wsgi_problems') or rec.get('asgi_problems')) and st is None) or st == 'ws-silent':
             return 'malformed'
         if st == 200:
             body = rec.get('body', b'')
@@ -249,9 +253,24 @@ class Runner:
         return st
 
     # --- stimuli
+    def flags(self):
+        """{session index: (in table, closed, closing, upgrading, upgraded, queue length)} as the implementation has it now"""
+        out = {}
+        for i, sid in enumerate(self.sids):
+            s = self.d.srv.sockets.get(sid)
+            if s is None:
+                out[i] = None
+            else:
+                q = s.queue
+                n = len(q.items) if hasattr(q, 'items') else q.qsize()
+                out[i] = (s.closed, s.closing, s.upgrading, s.upgraded, n, repr(s.session))
+        return out
+
     def do(self, op):
         d, k = self.d, op[0]
         term = None
+        self.pre.append(self.flags())
+        nsess_before = len(self.sids)
         if k in ('open', 'poll', 'post', 'upgrade', 'bad'):
             r = self.nr
             self.nr += 1
@@ -326,6 +345,11 @@ class Runner:
                 else:
                     raise ValueError(kind)
             self.rids[rid] = r
+            self.impl_rid[r] = rid
+            sref = op[1] if k in ('poll', 'post', 'upgrade') else (op[2] if k == 'bad' and len(op) > 2 else None)
+            self.req_info[r] = (k, sref if k != 'open' else ('new', nsess_before))
+            if k == 'upgrade' or (k == 'open' and op[1] == 'websocket'):
+                self.conn_sess[self.nc - 1] = sref if k == 'upgrade' else ('new', nsess_before)
             term = ('(OpReq %s {| r_method := %s; r_transport := %s; r_sid := %s; r_eio4 := %s; r_jsonp := %s; r_upgrade_ws := %s; r_conn_upgrade := %s; '
                     'r_origin_refused := %s; r_conn := %s; r_body := %s; r_connect := %s |})'
                     % (qN(r), q['method'], q['transport'], q['sid'], q['eio4'], q['jsonp'], q['upg'], q['cup'], q['origin'], q['conn'], q['body'], q['connect']))
@@ -369,6 +393,7 @@ class Runner:
         self.ops.append(term)
         self.log.append(op)
         self.outs.append(self._collect())
+        self.post.append(self.flags())
 
     def close(self):
         self.d.close()
